@@ -61,7 +61,7 @@ def gen_schema(rnd, depth=0):
     if depth >= 2 or c < 0.45:
         if rnd.random() < 0.4:
             return ["B"]
-        return ["M", rnd.choice([2, 4, 16, 256, 3, 10, 100, 1, 17, 1 << 20])]
+        return ["M", rnd.choice([2, 4, 16, 256, 3, 10, 100, 1, 17, 1 << 20, 7, 15, 1000, 65537, 100000, 0x10FFFF, (1 << 20) + 7, (1 << 33) + 5])]   # incl. 2^k-1 and moduli wider than any global bitlength used
     if c < 0.8:
         return ["L", [gen_schema(rnd, depth + 1) for _ in range(rnd.randrange(1, 4))]]
     return ["R", gen_schema(rnd, depth + 1), rnd.randrange(1, 4)]
@@ -71,7 +71,7 @@ def gen_value(rnd, s, bad=False):
     if s[0] == "B": return rnd.choice([0, 1])
     if s[0] == "M":
         if bad: return rnd.choice([s[1], s[1] + 1, -1])
-        return rnd.randrange(0, s[1])
+        return rnd.choice([0, s[1] - 1, min(1, s[1] - 1), rnd.randrange(0, s[1]), rnd.randrange(0, s[1])])
     if s[0] == "L": return [gen_value(rnd, x, bad and i == 0) for i, x in enumerate(s[1])]
     if s[0] == "R": return [gen_value(rnd, s[1], bad and i == 0) for i in range(s[2])]
 
